@@ -35,6 +35,43 @@ func genC02(t *rapid.T) lsw.Case {
 	cfg.MaxSyncFr = rapid.SampledFrom([]int{1, 1, 3, 3, 0, -1}).Draw(t, "msf")
 	m := lsw.NewGenModel(cfg)
 	var ops []lsw.Op
+	if rapid.Bool().Draw(t, "coldStart") {
+		// litestream's first (snapshot-type) sync finds a database with history: base content already checkpointed
+		// into the database file, committed transactions in the WAL, some of them backfilled by an application
+		// checkpoint that a long reader kept from completing (so the WAL cannot restart)
+		for i, n := 0, rapid.IntRange(1, 4).Draw(t, "coldBase"); i < n; i++ {
+			ops = append(ops, lsw.Op{K: "insert", T: 0, N: rapid.SampledFrom([]int{5, 12, 30}).Draw(t, "n"), S: rapid.SampledFrom([]int{1, 2, 2, 3}).Draw(t, "size")})
+		}
+		if rapid.IntRange(0, 9).Draw(t, "coldBaseCkpt") < 8 {
+			ops = append(ops, lsw.Op{K: "appckpt", C: 0, M: rapid.SampledFrom([]string{"TRUNCATE", "TRUNCATE", "RESTART", "FULL", "PASSIVE"}).Draw(t, "coldBaseMode")})
+		}
+		reader := rapid.IntRange(0, 9).Draw(t, "coldReader") < 7
+		if reader {
+			ops = append(ops, lsw.Op{K: "openconn", C: 1})
+			m.ConnOpen[1] = true
+		}
+		readerAt := rapid.IntRange(0, 3).Draw(t, "coldReaderAt")
+		nw := rapid.IntRange(2, 5).Draw(t, "coldWrites")
+		for i := 0; i < nw; i++ {
+			if reader && i == readerAt {
+				ops = append(ops, lsw.Op{K: "beginread", C: 1})
+				m.Tx[1] = 1
+			}
+			if rapid.IntRange(0, 3).Draw(t, "coldKind") == 0 {
+				ops = append(ops, m.AppOp(t))
+			} else {
+				a := rapid.IntRange(0, 100).Draw(t, "a")
+				ops = append(ops, lsw.Op{K: "update", T: 0, A: a, B: rapid.IntRange(a, 100).Draw(t, "b")})
+			}
+		}
+		if rapid.IntRange(0, 9).Draw(t, "coldCkpt") < 8 && m.ConnOpen[0] && m.Tx[0] == 0 {
+			ops = append(ops, lsw.Op{K: "appckpt", C: 0, M: rapid.SampledFrom([]string{"PASSIVE", "PASSIVE", "FULL"}).Draw(t, "coldMode")})
+		}
+		if m.Tx[1] == 1 && rapid.IntRange(0, 9).Draw(t, "coldEndRead") < 7 {
+			ops = append(ops, lsw.Op{K: "endread", C: 1})
+			m.Tx[1] = 0
+		}
+	}
 	ops = append(ops, lsw.Op{K: "sync"})
 	blocks := rapid.IntRange(3, 10).Draw(t, "blocks")
 	if core.Thorough() {
